@@ -110,6 +110,29 @@ pub fn valid_case(cx: &mut Ctx, n: u64, case: &Value) {
                 }
                 Err(pn) => cx.bad("C14", "multipolygon_is_valid", case, json!({"got": format!("PANIC {pn}")})),
             }
+            // the same point set written with an empty member (first / between / last) and with the members swapped:
+            // an empty polygon contributes no point, so validity and the kind of defect are unchanged
+            let empty = geo::Polygon::<f64>::new(geo::LineString::new(vec![]), vec![]);
+            let mut variants: Vec<(&str, Vec<geo::Polygon<f64>>)> = vec![];
+            let ms = mp.0.clone();
+            variants.push(("empty member first", std::iter::once(empty.clone()).chain(ms.iter().cloned()).collect()));
+            variants.push(("empty member last", ms.iter().cloned().chain(std::iter::once(empty.clone())).collect()));
+            if ms.len() >= 2 {
+                let mut mid = ms.clone();
+                mid.insert(1, empty.clone());
+                variants.push(("empty member between", mid));
+                variants.push(("members swapped", ms.iter().rev().cloned().collect()));
+                variants.push(("two empty members first", vec![empty.clone(), empty.clone()].into_iter().chain(ms.iter().cloned()).collect()));
+            }
+            for (what, members) in variants {
+                let v = geo::MultiPolygon::new(members);
+                let r = guard(|| (v.is_valid(), v.validation_errors().iter().map(|e| format!("{e:?}")).collect::<Vec<_>>()));
+                match r {
+                    Ok((ok, errs)) if ok == want && errs.is_empty() == want
+                        && errs.iter().all(|e| (e.starts_with("ElementsOverlaps") && case["overlap"].as_bool().unwrap()) || (e.starts_with("ElementsTouchOnALine") && case["online"].as_bool().unwrap())) => cx.ok("multipolygon_with_empty_member"),
+                    other => cx.bad("C14", "multipolygon_with_empty_member", case, json!({"what": what, "got": format!("{other:?}"), "want_valid": want})),
+                }
+            }
         }
         _ => cx.count("valid_unhandled_type", 1),
     }
